@@ -1283,6 +1283,7 @@ pub const fn overflowing_shl_vartime(&self, shift: u32) -> (ret__: ConstCtOption
         if rem == 0 {
             let x = val(p1, LIMBS as nat);
             lemma_pow2_64(); lemma_val_bound(p1, LIMBS as nat);
+            assert(0 <= x < bp(LIMBS as nat));
             assert(x + 0 * bp(LIMBS as nat) == lowv * bp(sn) * p2(0)) by (nonlinear_arith) requires x == lowv * bp(sn), p2(0) == 1;
             lemma_shl_finish(self.limbs@, x, 0, LIMBS as nat, sn, 0, shift as nat);
         }
